@@ -40,7 +40,12 @@ def run(tier):
         tr, specdir, codes, near, pats = lang.generate(sc, rep)
         common.use_repo()
         from athlib import check_event_code, normalize_event_code
-        base = sorted(set(codes) | set(lang.REALISTIC))
+        base = set(codes) | set(lang.REALISTIC)
+        # numbers longer than the automaton's loop unrolling (WT10.0kg, 4x12.5K, 110H91.4cm ...)
+        for c in sorted(base):
+            if any(ch.isdigit() for ch in c) and (c in lang.REALISTIC or len(c) <= (6 if quick else 12)):
+                base.update(lang.digit_variants(c))
+        base = sorted(base)
         rep.setcov('language', dict(automaton_witnesses=len(codes), near_miss_witnesses=len(near), realistic=len(lang.REALISTIC)))
         strings, groups = [], []
         seen = {}
